@@ -8,7 +8,10 @@
 EXTENDS Pool
 
 B(k, lat)   == [k |-> k, lat |-> lat]
-S(tr, u, t) == [trusted |-> tr, udp |-> u, tcp |-> t]
+\* (connections are established at once and kept unless said otherwise)
+S(tr, u, t) == [trusted |-> tr, udp |-> u, tcp |-> t, tc |-> <<B("ok", 0)>>, idle |-> 0]
+\* TCP-only server with connection behaviour: connection script, idle-close delay, request script
+ST(tc, idle, t) == [trusted |-> TRUE, udp |-> <<>>, tcp |-> t, tc |-> tc, idle |-> idle]
 Lats == {30, 180}
 
 Profiles ==
@@ -27,7 +30,7 @@ Profiles ==
 \* the same without the long latency
 Few == {p \in Profiles : \A x \in {"udp", "tcp"} : \A i \in 1..Len(Script(p, x)) : Script(p, x)[i].lat # 180}
 
-C(ta, n, st, srvs) == [T |-> 300, ta |-> ta, nconc |-> n, strategy |-> st, servers |-> srvs]
+C(ta, n, st, srvs) == [T |-> 300, ta |-> ta, ct |-> 100, nconc |-> n, strategy |-> st, servers |-> srvs]
 
 \* two servers, every strategy and degree of parallelism, stock and stricter per-attempt timeout
 MC_Two ==
@@ -38,6 +41,38 @@ MC_Three ==
     {C(300, n, "user", <<a, b, c>>) : n \in {1, 2}, a \in Profiles, b \in Profiles, c \in Profiles}
 \* sharing: two servers, callers arriving at any point of the timeline or after completion
 MC_Shared == {C(300, n, st, <<a, b>>) : n \in {1, 2}, st \in {"user", "rr"}, a \in Few, b \in Few}
+\* back-pressure from several servers at once: every server busy for 1..3 requests (or for ever, or
+\* broken), budget large enough for the whole back-off
+BusyProfiles ==
+    {S(TRUE, <<B("busy", 30), B("answer", 30)>>, <<>>),
+     S(TRUE, <<B("busy", 30), B("busy", 30), B("answer", 30)>>, <<>>),
+     S(TRUE, <<B("busy", 30), B("busy", 30), B("busy", 30), B("answer", 30)>>, <<>>),
+     S(TRUE, <<B("busy", 10), B("busy", 10), B("busy", 10), B("busy", 10), B("answer", 10)>>, <<>>),
+     S(TRUE, <<B("busy", 30)>>, <<>>),
+     S(TRUE, <<B("io", 30)>>, <<>>)}
+MC_Busy ==
+    {[C(1000, n, "user", <<a, b>>) EXCEPT !.T = 1000] : n \in {1, 2}, a \in BusyProfiles, b \in BusyProfiles}
+    \cup {[C(1000, 2, "user", <<a, b, c>>) EXCEPT !.T = 1000] : a \in BusyProfiles, b \in BusyProfiles, c \in BusyProfiles}
+
+\* transport level: TCP connection attempts that are refused, black-holed or slow, servers that close
+\* idle connections, replies slower than the connect timeout (100) but inside the request timeout
+SockProfiles ==
+    {ST(<<B("ok", 0)>>, 0, <<B("answer", 30)>>),
+     ST(<<B("ok", 0)>>, 0, <<B("answer", 180)>>),
+     ST(<<B("ok", 0)>>, 10, <<B("answer", 30)>>),
+     ST(<<B("ok", 60)>>, 10, <<B("answer", 30)>>),
+     ST(<<B("blackhole", 0)>>, 0, <<B("answer", 30)>>),
+     ST(<<B("refused", 10)>>, 0, <<B("answer", 30)>>),
+     ST(<<B("refused", 10), B("ok", 0)>>, 0, <<B("answer", 30)>>),
+     ST(<<B("ok", 0)>>, 0, <<B("io", 30), B("answer", 30)>>),
+     ST(<<B("ok", 0)>>, 0, <<B("timeout", 0)>>),
+     S(TRUE, <<B("trunc", 30)>>, <<B("answer", 30)>>),
+     S(TRUE, <<B("answer", 30)>>, <<>>),
+     S(FALSE, <<B("nx", 30)>>, <<>>),
+     S(TRUE, <<B("timeout", 0)>>, <<>>)}
+MC_Sock == {C(300, n, "user", <<a, b>>) : n \in {1, 2}, a \in SockProfiles, b \in SockProfiles}
+           \cup {C(300, 1, "user", <<a>>) : a \in SockProfiles}
+
 \* one and four servers
 MC_One  == {C(ta, 1, "user", <<a>>) : ta \in {300, 120}, a \in Profiles}
 MC_Four == {C(300, 2, "user", <<a, b, c, d>>) : a \in Few, b \in Few, c \in Few, d \in Few}
